@@ -724,20 +724,30 @@ fn main() {
     // Representative exact Lanczos breakdowns on strictly diagonally dominant systems (genuine violations of the
     // statement "every strictly diagonally dominant system", inherent to look-ahead-free Lanczos methods; listed in
     // known_findings.txt, reported as KNOWN-FINDING by the driver).
+    // (the last five come from the fourth bug hunt, hunt/C09/round4: breakdowns that are exact in real arithmetic and perturbed by rounding -
+    // the `== 0.0` tests miss them, the noise is normalised and used - and near breakdowns on an irreducible upwind stencil; on all
+    // 104 976 strictly dominant 2x2 systems with entries in -9..9 and four right-hand sides BiCG, QMR and BiCGSTAB fail 2.0%, 2.0% and 3.5% of
+    // the time, nearly all of them exact breakdowns at the first step, which no restart can cure)
+    let upwind: D = (0..40).map(|i| (0..40).map(|j| if i == j { 1.0 } else if j + 1 == i { -0.1 } else if j == i + 1 { -0.8 } else { 0.0 }).collect()).collect();
     let reps: Vec<(Solver, D, Vec<f64>, Vec<f64>)> = vec![
         (Solver::Bicgstab, vec![vec![2.0, 1.0, 0.0], vec![0.0, 1.0, 0.0], vec![0.0, 0.0, -1.0]], vec![1.5, -0.5, -2.0], vec![0.0, 0.0, 0.0]),
+        (Solver::Qmr, vec![vec![5.0, 4.0], vec![6.0, 7.0]], vec![3.0, 3.0], vec![0.0, 0.0]),
+        (Solver::Bicg1, vec![vec![7.0, -2.0, -1.0], vec![-2.0, 7.0, -3.0], vec![-3.0, -3.0, 7.0]], vec![1.0, 1.0, 1.0], vec![0.0, 0.0, 0.0]),
+        (Solver::Bicgstab, vec![vec![2.0, -1.0], vec![-4.0, -7.0]], vec![1.0, 1.0], vec![0.0, 0.0]),
+        (Solver::Bicg1, upwind.clone(), vec![1.0; 40], vec![0.0; 40]),
+        (Solver::Qmr, upwind, vec![1.0; 40], vec![0.0; 40]),
     ];
     ctx.known_finding_space("representative exact Lanczos breakdowns (strictly dominant systems)");
     ctx.lattice(
         "representative exact Lanczos breakdowns (strictly dominant systems)",
         reps.len() as u64,
-        |i| format!("{:?} A={:?} b={:?} x0={:?}", reps[i as usize].0, reps[i as usize].1, reps[i as usize].2, reps[i as usize].3),
+        |i| format!("{:?} n={} b={:?}", reps[i as usize].0, reps[i as usize].1.len(), &reps[i as usize].2[..2]),
         |i, acc| {
             let (s, d, b, x0) = &reps[i as usize];
             let n = d.len();
             acc.nontriv("breakdown representative");
             let a = sparse_of(d, 0);
-            let key = || format!("breakdown {:?} A={:?} b={:?} x0={:?} tol=1e-6", s, d, b, x0);
+            let key = || if n <= 4 { format!("breakdown {:?} A={:?} b={:?} x0={:?} tol=1e-6", s, d, b, x0) } else { format!("breakdown {:?} tridiag(-0.1,1,-0.8) n={} b=ones x0=0 tol=1e-6", s, n) };
             let res = catch(|| -> Result<(), String> {
                 let bv = Vector::create(b.clone());
                 let mut x = Vector::create(x0.clone());
